@@ -167,7 +167,9 @@ def plan(tier, seed):
       tasks.append({"name": "%s/%s/%d" % (family, part, i // chunk),
                     "family": family, "items": items[i:i + chunk],
                     "concrete": concrete, "part": family + "_" + part,
-                    "profile": {"x64": x64, "devices": 2}, "x64": x64,
+                    # 3 host devices, batch axis / pmap over 2 of them: the
+                    # replica count is the size of the axis, not of the host
+                    "profile": {"x64": x64, "devices": 3}, "x64": x64,
                     "weight": chunk})
 
   ds1 = deviations(DS_OPTIONS, 1)
